@@ -26,6 +26,32 @@ check("C08", "exploration",
       "EOF/indent balance, and every token's (line, column) must be where its text is in the source. A coverage statement over the whole bounded space, not a sample.",
       "Inputs longer than the bound or using characters outside the alphabet are not covered; position clauses judged only on inputs lexed without error.")
 
+check("C11", "exploration",
+      "exhaustive enumeration of operator chains; oracle = reference precedence-climbing parser built from the documented table",
+      "Every flat chain of up to 3 (quick) / 4 (thorough) binary operators over all 29 operator tokens, with each operand drawn from 8 forms (identifier, literal, "
+      "prefix -,+,~, negative literal, method call, parenthesised), spaced and unspaced, is parsed by the real Lexer+Parser and its tree compared with the tree the "
+      "documented precedence table dictates. Exhaustive within the bound, so every pair/triple of precedence classes and every prefix/binary interaction is covered.",
+      "Only the token-level operators of the table; operands limited to the listed forms; `!=` and ranges are not tried without spaces (lexing rules).")
+
+check("C21", "model_checking",
+      "explicit-state breadth-first search over operation sequences on the real ModuleGraph with a reference-graph invariant in every state",
+      "BFS where each transition calls the real ModuleGraph method (add_node_if_none, inc_ref, remove, rename_path, sort) on a clone of the real object; states are "
+      "deduplicated on a key that contains node order, dependency sets and what the index resolves each path to; in every reached state all queries are compared with a "
+      "BTreeMap reference for every path pair. Quick: 3 paths to closure; thorough: adds 4 paths to depth 7, 5 to depth 5, 6 to depth 4.",
+      "Module paths are plain non-existent file names; inc_ref is only issued with a registered target (call-site precondition); rename_path only to an unregistered path.")
+
+check("C31", "exploration",
+      "exhaustive enumeration of all paths up to 8/10 components against an independent lexical normaliser",
+      "All 174 762 (quick) / 2.8 M (thorough) relative and absolute paths of <=8 / <=10 components over {., .., a, b} go through NormalizedPathBuf::new; the result must equal the "
+      "reference lexical normal form (which implies N(p)=N(q) only for equal references) and be a fixed point.",
+      "Lexical semantics only (no symlinks, case-sensitive platform).")
+
+check("C32", "exploration",
+      "exhaustive enumeration of combinator trees; exact window evaluation replaces the SMT solver",
+      "Every application of Predicate::{and, or, invert} to operands drawn from a pool closed under the combinators (840 operands, 1.4 M applications in quick; deeper pools and "
+      "other constant sets in thorough) is compared with intersection/union/complement of the operands' satisfying sets on a window that is exact for the constants used.",
+      "One integer variable, comparison atoms against small constants; the reference evaluator reads the resulting Predicate structure.")
+
 PENDING = {}
 
 
